@@ -143,3 +143,9 @@ V('C18', 'translate-table-same-escapes', 'edb/edgeql/quote.py', None,
 V('C18', 'revert-fix-partial-reserved', Q, 'edb.edgeql.quote.needs_quoting',
   "            or string in keywords.by_type[keywords.PARTIAL_RESERVED_KEYWORD]\n", "",
   'C18.R3', 'needs_quoting:keyword-class=PARTIAL_RESERVED_KEYWORD')
+
+# round 5: the stored seeded breaks this property's check reports, replayed as variants
+from sa.selftest import VP  # noqa
+VP('C18', 'C18-e1', 'C18.R4', 'pgsql.codegen.visit_StringConstant')
+VP('C18', 'C18-e2', 'C18.R3', 'never-verbatim-when-quoting-needed')
+VP('C18', 'C18-e3', 'C18.R3', 'escapes-single-quote')
